@@ -1,5 +1,5 @@
 //! Executes `kind = "store"` cases against the real backend and evaluates the reference oracle.
-use crate::canon::*;
+use crate::canon::{err_name, filter_from_json, kind_of, kind_num, recs_json, ref_holds, sorted_tags, tags_from_json, value_from_json, Rec, Tag};
 use crate::rawsql::{RawDb, Val};
 use askar_storage::any::{AnyBackend, AnyBackendSession};
 use askar_storage::backend::{Backend, BackendSession, ManageBackend, OrderBy};
@@ -252,6 +252,14 @@ fn paginate(page: usize, rows: &[Rec]) -> Vec<Vec<Rec>> {
 // ---------------------------------------------------------------------------------------------
 // Execution against the real backend
 
+thread_local! { pub static DIAG: std::cell::RefCell<Vec<String>> = std::cell::RefCell::new(vec![]); }
+
+/// error -> canonical JSON, remembering the full message on the diagnostic channel (never compared)
+fn jerr(e: &askar_storage::Error) -> Value {
+    DIAG.with(|d| d.borrow_mut().push(format!("{:?}", e)));
+    crate::canon::jerr(e)
+}
+
 pub struct StoreRun {
     pub backend: AnyBackend,
     pub path: Option<String>,
@@ -451,7 +459,8 @@ pub fn exec(case: &Value, tag: &str) -> Value {
     });
     cleanup(&run.path);
     for p in page_sizes { *feat.entry(if p == page { "page:full".to_string() } else { "page:partial".to_string() }).or_insert(0) += 1; }
-    json!({"out": outs, "oracle": oracle_fail, "feat": feat, "now": now})
+    let diag: Vec<String> = DIAG.with(|d| d.borrow_mut().drain(..).collect());
+    json!({"out": outs, "oracle": oracle_fail, "feat": feat, "now": now, "diag": diag})
 }
 
 fn oracle_ctx(o: &Oracle, op: &Value) -> String {
